@@ -74,6 +74,7 @@ type sys struct {
 	indexed  []bool
 	mgrs     []*resources.LocalSharedManager
 	timeouts []time.Duration
+	holder   map[int]int // variable -> context whose section body is running and has accessed it (mutual exclusion oracle)
 	db       *badger.DB // non-nil: every sharer's handle is wrapped in Persistent (in-memory badger)
 	progs    [][]section
 	hist     []histOp
@@ -227,6 +228,16 @@ func (s *sys) runCtx(c int) {
 			last := map[int]int32{}
 			lastIdx := map[[2]int32]int32{}
 			held := map[int]bool{}
+			// mutual exclusion: from a section's first successful access to a variable until its
+			// body returns (the lock is released later still, in Commit/Abort) no other context's
+			// access to that variable succeeds
+			defer func() {
+				for v := range held {
+					if s.holder[v] == c+1 {
+						delete(s.holder, v)
+					}
+				}
+			}()
 			for k, o := range sec.ops {
 				if failNow && k == sec.failAfter {
 					attempts[j]++
@@ -302,6 +313,10 @@ func (s *sys) runCtx(c int) {
 				// holder does, no operation on a shared variable takes longer than that (net of the
 				// time the simulator itself took from this task)
 				checkDur()
+				if other := s.holder[o.v]; other != 0 && other != c+1 {
+					w.Fail("two_sections_hold_variable", "context %d accessed v%d while the section of context %d, which had accessed it, was still running (the variable's lock is held until that section commits or aborts) | %s", c, o.v, other-1, s.desc)
+				}
+				s.holder[o.v] = c + 1
 				held[o.v] = true
 			}
 			if failNow && sec.failAfter == len(sec.ops) {
@@ -335,7 +350,7 @@ func (s *sys) runCtx(c int) {
 }
 
 func scenario(w *sim.World) {
-	s := &sys{w: w, lastEnd: map[int]time.Duration{}, finished: map[int]bool{}}
+	s := &sys{w: w, lastEnd: map[int]time.Duration{}, finished: map[int]bool{}, holder: map[int]int{}}
 	s.generate()
 	if w.Choose(sim.KCfg, 3) == 1 {
 		s.db = openDB(w)
